@@ -27,17 +27,19 @@ def run(ctx):
 
     thorough = not ctx.quick()
     ctx.tlc_check("chain", "MCBlockVerify.tla", "BlockVerify_quick.cfg", timeout=900)
+    # self-test of the properties: each design switch flipped must be caught by TLC (the fifth:
+    # the new-root check skipped for blocks whose state diff has no entry)
+    tests = ("emptydiffroot",) if not thorough else ("nosucc", "noroot", "emptydiffroot", "notxhash", "earlywrite")
+    for name in tests:
+        r = ctx.tlc_check("chain", "MCBlockVerify.tla", "BlockVerify_self_%s.cfg" % name, timeout=600,
+                          expect_violation=True, label="selftest:" + name)
+        if r["ok"] or not r["violated"]:
+            raise vlib.Broken("self-test %s: TLC did not object to the weakened design" % name)
+    ctx.coverage["spec_selftests_caught"] = len(tests)
     if thorough:
-        r = ctx.tlc_check("chain", "MCBlockVerify.tla", "BlockVerify_thorough.cfg", timeout=3000, coverage=True)
+        ctx.tlc_check("chain", "MCBlockVerify.tla", "BlockVerify_thorough.cfg", timeout=3000)
+        r = ctx.tlc_check("chain", "MCBlockVerify.tla", "BlockVerify_pending.cfg", timeout=3000, coverage=True)
         vlib.require_actions_covered(r)
-        # self-test of the properties: each design switch flipped must be caught by TLC
-        for name, prop in (("nosucc", "StoredChainValid"), ("noroot", "StoredChainValid"),
-                           ("notxhash", "StoredChainValid"), ("earlywrite", None)):
-            r = ctx.tlc_check("chain", "MCBlockVerify.tla", "BlockVerify_self_%s.cfg" % name, timeout=600,
-                              expect_violation=True, label="selftest:" + name)
-            if r["ok"] or not r["violated"]:
-                raise vlib.Broken("self-test %s: TLC did not object to the weakened design" % name)
-        ctx.coverage["spec_selftests_caught"] = 4
 
     # behaviours: the cursor walks all (version, field) pairs; ~40% of the steps are tamperings
     cycles = 3 if thorough else 1
@@ -75,6 +77,16 @@ def run(ctx):
     stats = res.get("stats", {})
     replayed = {tuple(c.split("@")[::-1]) for c in stats.get("covered", [])}
     ctx.coverage.pop("covered", None)
+    by_shape = stats.get("offers_by_shape", {})
+    # the state-root check must have been exercised on blocks WITHOUT diff entries, re-sealed so that only
+    # Store's root check can reject, at height 0 and above
+    for shape in ("emptydiff", "empty"):
+        n = sum(v for k, v in by_shape.items() if k.startswith("OfferWrongRoot/root/resealed/" + shape))
+        if not res.get("divergences") and n == 0:
+            raise vlib.Broken("no re-sealed wrong-root offer on an %s block was replayed" % shape)
+    ctx.coverage["resealed_wrong_root_offers_on_empty_diff"] = sum(
+        v for k, v in by_shape.items() if k.startswith("OfferWrongRoot/") and "/resealed/" in k
+        and ("/emptydiff/" in k or "/empty/" in k))
     ctx.coverage["behaviours_generated"] = len(behaviours)
     ctx.coverage["steps_replayed"] = res.get("steps", 0)
     ctx.coverage["tamper_cases_in_spec"] = ntampers
@@ -97,11 +109,12 @@ def run(ctx):
     ]
     return ctx.finish(
         "model_checking",
-        "exhaustive TLC on BlockVerify.tla (chain length <= 3, 4 protocol versions, every committed-field tamper at "
-        "every position, wrong parent/number/root/class, verify-ahead pipeline) + TLC simulation behaviours whose "
+        "exhaustive TLC on BlockVerify.tla (chain length <= 2 quick / 3 thorough, 4 protocol versions x 4 content shapes "
+        "(full, empty diff, empty block, bare), every committed-field tamper at every position, wrong parent/number/"
+        "root (re-sealed and hash-kept) /class, verify-ahead pipeline) + TLC simulation behaviours whose "
         "cursor enumerates every (version, committed field) pair, replayed offer by offer on real nodes (memory DB, "
         "both state backends, with and without prior chain); distinct non-trivial case = one (version, field) "
-        "tampering applied to a real target in a block holding all ten transaction kinds, or one hash-valid "
+        "tampering applied to a real target (in a block of a shape that has one), or one hash-valid "
         "non-continuing / wrong-root / stale-class / failed-commit offer; + every real fixture block",
         {"distinct_nontrivial": len(replayed) + int(ctx.coverage.get("fixture_tampers_rejected", 0)),
          "evaluations": int(res.get("steps", 0)) + int(ctx.coverage.get("fixture_offers", 0))})
